@@ -1662,9 +1662,10 @@ isal_deflate(struct isal_zstream *stream)
                 in_size = stream->avail_in + buffered_size;
                 out_size = stream->total_out;
 
-        } while (internal && stream->avail_out > 0 &&
-                 (stream->avail_in > 0 ||
-                  (buffered_size > 0 && (flush_type != NO_FLUSH || end_of_stream))) &&
+        } while (stream->avail_out > 0 &&
+                 ((internal && stream->avail_in > 0) ||
+                  ((stream->avail_in > 0 || buffered_size > 0) &&
+                   (flush_type != NO_FLUSH || end_of_stream))) &&
                  (in_size_initial != in_size || out_size_initial != out_size));
 
         /* Buffer history if data was pulled from the external buffer and future
